@@ -157,7 +157,12 @@ def build_td(spec):
         for i in range(bs[sd]):
             sub = {p: t.select(sd, i) for p, t in dense.items()}
             order = [tuple(p) for p in orders[i]] if orders else [tuple(e[0]) for e in spec["entries"]]
-            members.append(_plain_td(sub, bs[:sd] + bs[sd + 1:], order))
+            m = _plain_td(sub, bs[:sd] + bs[sd + 1:], order)
+            if spec.get("own"):
+                # a key of its own per member: the stack cannot be densified and STAYS LAZY when it is expanded
+                # (its visible keys are still the common ones)
+                m.set("own%d" % i, torch.full(bs[:sd] + bs[sd + 1:], i + 1).to(getattr(torch, spec["own"] if isinstance(spec["own"], str) else spec["entries"][0][2])))
+            members.append(m)
         obj = T["Lazy"].lazy_stack(members, sd)
         if spec.get("names") is not None and len(bs):
             obj.names = list(spec["names"])
@@ -261,7 +266,10 @@ def canon_collection(r):
             names = list(r.names)
     except Exception:  # noqa: BLE001
         names = "unreadable"
-    return {"kind": kind, "bs": list(r.batch_size), "names": names, "leaves": leaves}
+    out = {"kind": kind, "bs": list(r.batch_size), "names": names, "leaves": leaves}
+    if kind == "lazy":
+        out["stack_dim"] = r.stack_dim
+    return out
 
 
 def canon_expected(exp, bs):
@@ -421,6 +429,13 @@ def mixed_lazy(sspec, operands):
     return any(o["k"] == "td" and (o.get("kind", "td") == "lazy") != sk for o in operands)
 
 
+def plain_mix(case, dself, oden, inplace):
+    """lazy stack (op) regular TensorDict, or the reverse: same batch shape, same keys, out-of-place, no default"""
+    o = case["args"][0]
+    return (o["k"] == "td" and {case["self"].get("kind", "td"), o.get("kind", "td")} == {"lazy", "td"} and not inplace
+            and list(o["bs"]) == list(case["self"]["bs"]) and set(dself) == set(oden) and "default" not in case.get("kw", {}))
+
+
 def operand_kind(o):
     if o["k"] == "td":
         return "td:" + o.get("kind", "td")
@@ -440,9 +455,9 @@ def expected_binary(case, dself, oden):
     default = kw.pop("default", None)
     if not dself:
         return ("unspecified", "empty tensordict (the property speaks about entries)")
-    if mixed_lazy(sspec, [o]) and op not in CMP_OPS:
-        return ("unspecified", "lazy stack combined with a dense tensordict")
     ref, inplace, reflected = bin_ref(op, {k: v for k, v in kw.items()})
+    if mixed_lazy(sspec, [o]) and op not in CMP_OPS and not plain_mix(case, dself, oden, inplace):
+        return ("unspecified", "lazy stack combined with a dense tensordict")
     if case.get("swap"):        # the collection is the RIGHT operand of the python operator: left <op> self
         ref = (lambda f: (lambda x, y: f(y, x)))(CMP_OPS[op])
     keys = list(dself)
@@ -704,13 +719,15 @@ def expected_reduce(case, dself):
                 return ("unspecified", "reduce=True on an empty tensordict")
             try:
                 flat = torch.cat([x.reshape(-1) for x in dself.values()])
-                return ("ok", {"kind": "tensor", "value": getattr(torch, op)(flat)})
+                ckw = {"correction": kw["correction"]} if "correction" in kw else {}
+                return ("ok", {"kind": "tensor", "value": getattr(torch, op)(flat, **ckw)})
             except Exception as e:  # noqa: BLE001
                 return ("illegal", type(e).__name__)
         if dim == "feature":
             try:
                 flat = torch.cat([x.reshape(tuple(bs) + (-1,)) for x in dself.values()], -1)
-                r = getattr(torch, op)(flat, dim=-1)
+                ckw = {"correction": kw["correction"]} if "correction" in kw else {}
+                r = getattr(torch, op)(flat, dim=-1, **ckw)
                 return ("ok", {"kind": "tensor", "value": r.values if isinstance(r, tuple) else r})
             except Exception as e:  # noqa: BLE001
                 return ("illegal", type(e).__name__)
@@ -885,6 +902,8 @@ def core_usage(case, dens):
         if o["k"] == "td":
             if case["op"] in CMP_OPS and keyrel(dens[0], dens[1]) == "same" and list(o["bs"]) == list(case["self"]["bs"]):
                 return True        # comparisons work across TensorDict / tensorclass / lazy stack on either side
+            if plain_mix(case, dens[0], dens[1], inplace):
+                return True
             if o.get("kind", "td") != skind or keyrel(dens[0], dens[1]) != "same" or "default" in case.get("kw", {}):
                 return False
             if list(o["bs"]) == list(case["self"]["bs"]):
@@ -1006,8 +1025,22 @@ def run_case(case):
 
 
 def known_pattern(case, sig):
-    """input pattern of a defect recorded as `kind: known` in findings.d/C09.json.  There is none left: the patterns of
-    D18, D40-D49 and of the lazy-stack defects D50-D55 (fixes/C09/*.diff) are gone, each of them is a violation again."""
+    """input pattern of a defect recorded as `kind: known` in findings.d/C09.json (D56, D57, D58), computed from the case
+    and the kind of check that failed, never from the values.  The patterns of D18, D40-D49 and of the lazy-stack defects
+    D50-D55 (fixes/C09/*.diff) are gone: each of them is a violation again."""
+    fam, op, chk = case["fam"], case["op"], sig.get("check")
+    tds = [o for o in case.get("args", []) if o["k"] == "td"]
+    if fam in ("binary", "ternary") and op not in COMPARE and op not in ("where", "clamp") and chk in ("value", "raises"):
+        s = case["self"]
+        if s.get("kind") == "lazy" and any(
+                o.get("kind") == "lazy" and ((list(o["bs"]) == list(s["bs"]) and o.get("stack_dim") != s.get("stack_dim"))
+                                             or (sig.get("inplace") and list(o["bs"]) != list(s["bs"]))) for o in tds):
+            return "lazy-lazy-different-stacking"          # D56
+        if fam == "binary" and chk == "raises" and tds and {s.get("kind", "td"), tds[0].get("kind", "td")} == {"lazy", "td"} \
+                and list(tds[0]["bs"]) == list(s["bs"]) and sig.get("keyrel") == "same":
+            return "lazy-dense-mix-same-shape"             # D57
+    if fam == "reduce" and op in ("std", "var") and sig.get("reduce") and "correction" in case.get("kw", {}) and chk == "value":
+        return "reduce-true-drops-correction"              # D58
     return "none"
 
 
@@ -1135,11 +1168,11 @@ def expected_unary(case, dself):
 
 
 # ------------------------------------------------------------------------------------------------ generators
-BATCHES = [[], [2], [3], [2, 3], [1, 2], [2, 1, 3], [4], [3, 2]]
+BATCHES = [[], [2], [3], [2, 3], [1, 2], [2, 1, 3], [4], [3, 2], [2, 2], [3, 3]]   # square ones: wrong pairings do not raise
 NAMES = ["p", "q", "r"]
 
 
-def gen_tdspec(rng, role=0, kind=None, bs=None, dtype=None, mode="norm", nkeys=None, allow_empty=False):
+def gen_tdspec(rng, role=0, kind=None, bs=None, dtype=None, mode="norm", nkeys=None, allow_empty=False, own=None):
     bs = list(bs) if bs is not None else list(rng.choice(BATCHES))
     if nkeys is None:
         nkeys = rng.choice([0] if allow_empty and rng.random() < 0.04 else [1, 2, 2, 3, 3, 4, 5])
@@ -1166,6 +1199,8 @@ def gen_tdspec(rng, role=0, kind=None, bs=None, dtype=None, mode="norm", nkeys=N
                 rng.shuffle(o)
                 orders.append(o)
             spec["member_orders"] = orders
+        if bs[spec["stack_dim"]] >= 2 and (own is True or (own == "maybe" and rng.random() < 0.4)):
+            spec["own"] = ents[0][2]    # members with exclusive keys (of this dtype): the stack stays lazy under expand
     if bs and rng.random() < 0.3:
         spec["names"] = NAMES[:len(bs)]
     return spec
@@ -1204,19 +1239,30 @@ def variant_td(rng, sspec, variant, role=1, kind=None, mode=None):
         else:
             sd = sspec.get("stack_dim", 0)
             spec["stack_dim"] = sd if sd < len(bs) else 0
+            if len(bs) >= 2 and not sspec.get("own") and rng.random() < 0.15:
+                spec["stack_dim"] = rng.choice([d for d in range(len(bs)) if d != spec["stack_dim"]])   # stacked along ANOTHER dim
+            if sspec.get("own") and sspec.get("kind") == "lazy" and bs == list(sspec["bs"]) and spec["stack_dim"] == sd:
+                spec["own"] = sspec["own"]   # member i of both stacks holds own<i> (same dtype): the fused path pairs them too
     if spec["kind"] == "tc" and not ents:
         spec["kind"] = "td"
     return spec
 
 
-def tensor_operand(rng, bs, how, dtype="float32", role=1, mode="norm"):
+def tensor_operand(rng, bs, how, dtype="float32", role=1, mode="norm", lead=None):
+    """how: t0 (0-d) | tb (batch-shaped) | tbc (broadcastable, any rank relation) | tup (MORE leading dims than the
+    batch; [lead] = a size that makes the enlarged shape square, e.g. the member count of a lazy stack) | tbad"""
     bs = list(bs)
+    if how == "tup":
+        k = rng.choice([lead, lead, 2, 3] if lead else [2, 3])
+        inner = [(1 if rng.random() < 0.25 else b) for b in bs]
+        return {"k": "t", "shape": [k] + (inner if rng.random() < 0.5 else bs), "dtype": dtype, "role": role, "mode": mode}
     if how == "t0" or (not bs and how in ("tb", "tbc")):
         shape = []
     elif how == "tb":
         shape = bs
     elif how == "tbc":
-        opts = [[(1 if rng.random() < 0.5 else b) for b in bs], bs[1:] if len(bs) > 1 else [1], [2] + bs, [1] * len(bs)]
+        opts = [[(1 if rng.random() < 0.5 else b) for b in bs], bs[1:] if len(bs) > 1 else [1], [2] + bs, [1] * len(bs),
+                [lead or 3] + bs]
         shape = rng.choice(opts)
     elif how == "tbad":
         shape = bs[:-1] + [bs[-1] + 1] if bs else [2]
@@ -1234,7 +1280,11 @@ def py_operand(rng, dtype):
 ALL_BINARY = BIN_FOREACH + BIN_INPLACE + BIN_LOOP + list(BIN_DUNDER)
 
 
-def gen_binary(rng, op=None, okind=None, skind=None):
+def _lead(s):
+    return s["bs"][s["stack_dim"]] if s.get("kind") == "lazy" else (s["bs"][0] if s["bs"] else None)
+
+
+def gen_binary(rng, op=None, okind=None, skind=None, own="maybe"):
     op = op or rng.choice(ALL_BINARY)
     logical = op in ("bitwise_and", "__and__", "__rand__", "__or__", "__ror__", "__xor__", "__rxor__")
     power = op in ("pow", "pow_", "__pow__", "__ipow__", "__rpow__")
@@ -1243,14 +1293,18 @@ def gen_binary(rng, op=None, okind=None, skind=None):
         dtype = rng.choice(["bool", "float32", "int64"])
     mode = "small" if power else "norm"
     omode = "mid" if op.strip("_") in ("maximum", "minimum", "clamp_max", "clamp_min") else mode
-    s = gen_tdspec(rng, 0, kind=skind, dtype=dtype, mode=mode, allow_empty=True)
+    s = gen_tdspec(rng, 0, kind=skind, dtype=dtype, mode=mode, allow_empty=True, own=own)
     _, inplace, reflected = bin_ref(op, {})
-    kinds = ["py", "py", "t0", "tb", "tbc", "tbad", "same", "perm", "perm", "perm", "extra", "missing", "both", "bcast"]
+    kinds = ["py", "py", "t0", "tb", "tbc", "tup", "tbad", "same", "perm", "perm", "perm", "extra", "missing", "both", "bcast"]
     if op in COMPARE[:8] + ["__eq__", "__ne__"]:
         kinds += ["dict", "dict"]
     if reflected:
-        kinds = ["py", "py", "t0", "tb", "tbc"]
+        kinds = ["py", "py", "t0", "tb", "tbc", "tup"]
     okind = okind or rng.choice(kinds)
+    if s.get("own") and okind == "bcast":
+        okind = "tup"       # a tensordict of another batch shape would have to hold every member's own key
+    if s.get("own") and okind == "dict":
+        okind = "tb"
     d0 = s["entries"][0][2] if s["entries"] else "float32"
     od = d0 if (logical or rng.random() < 0.7) else rng.choice(["float32", "int64"])
     kw = {}
@@ -1258,14 +1312,14 @@ def gen_binary(rng, op=None, okind=None, skind=None):
         o = py_operand(rng, d0 if logical else "float32")
         if logical and not isinstance(o["v"], bool):
             o["v"] = int(abs(o["v"])) if not isinstance(o["v"], float) else 3
-    elif okind in ("t0", "tb", "tbc", "tbad"):
-        o = tensor_operand(rng, s["bs"], okind, od, 1, omode)
+    elif okind in ("t0", "tb", "tbc", "tup", "tbad"):
+        o = tensor_operand(rng, s["bs"], okind, od, 1, omode, lead=_lead(s))
     elif okind == "dict":
         o = variant_td(rng, s, rng.choice(["same", "perm", "perm", "extra", "missing"]), 1, "td")
         o["k"] = "dict"
     else:
         okd = None
-        if rng.random() < 0.12:
+        if rng.random() < 0.12 and not s.get("own"):
             okd = rng.choice(["td", "tc", "lazy"])
         o = variant_td(rng, s, okind, 1, okd, mode=omode)
         for e in o["entries"]:
@@ -1298,7 +1352,7 @@ def gen_unary(rng, op=None, skind=None):
 def gen_ternary(rng, op=None, skind=None):
     op = op or rng.choice(TERNARY_FOREACH * 2 + TERNARY_OTHER)
     s = gen_tdspec(rng, 0, kind=skind, dtype=rng.choice(["float32", "float32", "float64"]),
-                   mode="norm", allow_empty=False)
+                   mode="norm", allow_empty=False, own="maybe" if op in TERNARY_FOREACH else None)
     kw = {}
     if op == "where":
         cond = {"k": "t", "shape": list(s["bs"]), "dtype": "bool", "role": 2}
@@ -1326,6 +1380,8 @@ def gen_ternary(rng, op=None, skind=None):
             mode = "lo" if i == 0 else "hi"
         if tok == "td":
             v = rng.choice(["same", "perm", "perm", "perm", "extra", "missing", "bcast"])
+            if s.get("own") and v == "bcast":
+                v = "same"
             o = variant_td(rng, s, v, roles[i], mode=mode)
             if op == "clamp" and i == 1:
                 for e in o["entries"]:
@@ -1335,7 +1391,8 @@ def gen_ternary(rng, op=None, skind=None):
                  (rng.choice([4.0, 6.0]) if i == 0 else rng.choice([11.0, 15.0])) if op == "clamp" else
                  rng.choice([2.0, 3.0, 4.0])}
         elif tok == "t":
-            o = tensor_operand(rng, s["bs"], rng.choice(["t0", "tb", "tb", "tbc"]), s["entries"][0][2], roles[i], mode)
+            o = tensor_operand(rng, s["bs"], rng.choice(["t0", "tb", "tb", "tbc", "tup"]), s["entries"][0][2], roles[i], mode,
+                               lead=_lead(s))
         else:
             o = {"k": "none"}
         args.append(o)
@@ -1384,6 +1441,8 @@ def gen_reduce(rng, op=None, skind=None):
     red = None
     if op in REDUCTIONS_TUPLE + REDUCTIONS_INT and rng.random() < 0.15:
         red = True
+    if op in ("std", "var") and rng.random() < 0.35:
+        kw["correction"] = rng.choice([0, 2])
     case = {"fam": "reduce", "op": op, "self": s, "args": [], "kw": kw, "dim": dim, "keepdim": keepdim, "reduce": red}
     if op == "norm":
         case["dim"], case["keepdim"] = "nodefault", "nodefault"
@@ -1406,13 +1465,13 @@ def gen_compare_pair(rng, op=None, left=None, right=None, locked=None, mode=None
     skind, okind = (right, left) if swap else (left, right)
     dtype = rng.choice(["int64", "int64", "float32", "int32"])
     bs = rng.choice([b for b in BATCHES if b] if "lazy" in (skind, okind) else BATCHES)
-    s = gen_tdspec(rng, 0, kind=skind, dtype=dtype, mode=mode, bs=bs)
+    s = gen_tdspec(rng, 0, kind=skind, dtype=dtype, mode=mode, bs=bs, own="maybe" if okind in ("py", "t", "lazy") else None)
     if locked is not None:
         s["locked"] = locked
     if okind == "py":
         o = {"k": "py", "v": rng.choice([1, 1, 2, 0, 1.0]) if mode == "cmp" else rng.choice([3, 7, 11, 13.0])}
     elif okind == "t":
-        o = tensor_operand(rng, s["bs"], rng.choice(["t0", "tb", "tb", "tbc"]), dtype, 1, mode)
+        o = tensor_operand(rng, s["bs"], rng.choice(["t0", "tb", "tb", "tbc", "tup"]), dtype, 1, mode, lead=_lead(s))
     else:
         o = variant_td(rng, s, rng.choice(["perm", "perm", "perm", "same", "extra", "missing"]), 1, okind, mode=mode)
         if locked is not None:
@@ -1446,6 +1505,10 @@ def systematic_cases(rng, methods):
                 _, inplace, reflected = bin_ref(op, {})
                 for ok in (["py", "tb"] if reflected else ["py", "perm", "extra", "tb"]):
                     out.append(gen_binary(rng, op, ok, skind))
+                if skind == "lazy" and not inplace:
+                    # a stack that stays lazy under expand x an operand with more leading dims (square / not square)
+                    out.append(gen_binary(rng, op, "tup", skind, own=True))
+                    out.append(gen_binary(rng, op, "tup", skind, own=None))
             elif op in TERNARY_FOREACH + TERNARY_OTHER:
                 for _ in range(3):
                     out.append(gen_ternary(rng, op, skind))
@@ -1761,6 +1824,8 @@ def eval_model_reduce(case, ans, dself):
     ckw = dict(case.get("kw", {}))
     if "dtype" in ckw:
         kw["dtype"] = getattr(torch, ckw["dtype"])
+    if "correction" in ckw:
+        kw["correction"] = ckw["correction"]
     out, out2 = {}, {}
     try:
         for k, x in dself.items():
@@ -1957,6 +2022,8 @@ def lazy_lines(case):
     fam, op, s = case["fam"], case["op"], case["self"]
     if s.get("kind") != "lazy" or not s["entries"]:
         return None
+    if s.get("own") and not (fam == "binary" and op in LAZY_BIN and case["args"][0]["k"] == "t" and case["args"][0]["shape"]):
+        return None                         # stacks with exclusive keys: only the broadcast decision is tied to the model
     if fam == "reduce" and op == "softmax" and isinstance(case["dim"], int):
         return ("softmax", sx([Sym("lazysoftmax"), len(s["bs"]), s["stack_dim"], case["dim"]]))
     if fam != "binary" or op not in LAZY_BIN or "alpha" in case.get("kw", {}):
@@ -1965,7 +2032,7 @@ def lazy_lines(case):
     okinds = [_okind_sx(o)]
     nd = (o["k"] == "t" and len(o["shape"]) > 0) or (o["k"] == "td" and list(o["bs"]) != list(s["bs"]) and len(o["bs"]) > 0)
     if nd:
-        return ("bcast", sx([Sym("lazybcast"), list(s["bs"]), s["stack_dim"], okinds]))
+        return ("bcast", sx([Sym("lazybcast"), list(s["bs"]), s["stack_dim"], bool(s.get("own")), okinds]))
     if o["k"] == "td" and (o.get("kind") != "lazy" or o.get("stack_dim") != s["stack_dim"]):
         return None                         # lazy (op) dense of the same shape: outside the property's operand kinds
     d = case.get("kw", {}).get("default")
@@ -1996,7 +2063,7 @@ def eval_lazy(case, kind, ans):
         if ans == "direct":
             return ("skip", "direct")
         if ans[0] == "member":
-            return ("ok", {"kind": "lazy", "bs": list(ans[1])}) if ans[2] != "raise" else ("raise",)
+            return ("ok", {"kind": "lazy", "bs": list(ans[1]), "stack_dim": ans[3]}) if ans[2] != "raise" else ("raise",)
         if ans[0] == "dense":
             return ("raise",) if ans[1] == "raise" else ("ok", {"kind": "td", "bs": list(ans[1][1])})
         return ("skip", str(ans[0]))
@@ -2063,8 +2130,10 @@ def check_lazy(R, cases, results):
                 d = ("raise " + str(r["exc"]), brief(ev[1]))
         else:
             got, want = r["got"], ev[1]
-            if got.get("kind") != want["kind"] or got.get("bs") != want["bs"]:
-                d = (f"{got.get('kind')} {got.get('bs')}", f"{want['kind']} {want['bs']}")
+            if got.get("kind") != want["kind"] or got.get("bs") != want["bs"] or (
+                    "stack_dim" in want and got.get("stack_dim") != want["stack_dim"]):
+                d = (f"{got.get('kind')} {got.get('bs')} stack_dim {got.get('stack_dim')}",
+                     f"{want['kind']} {want['bs']} stack_dim {want.get('stack_dim')}")
             elif "leaves" in want:
                 want["dtype_loose"] = True
                 dd = diff_collection(got, want)
@@ -2113,6 +2182,58 @@ def check_lazy(R, cases, results):
         if io != "raise" and io != want:
             R.oracle_fail("lazy-broadcast-left", {"tensor": sshape, "batch": B, "stack_dim": sd, "member": i, "feat": feat, "index": pos},
                           {"got": io, "want": want}, {"site": "lazy member slice", "pattern": "none"})
+
+
+def check_expand(R):
+    """a stack that stays lazy under expand (members with exclusive keys), on the real library: stack dim of
+    lazy.expand(B) and the element member i of the expanded stack reads, vs Model/C09_Lazy expand_stack_dim / bidx"""
+    T = _imports()
+    torch = T["torch"]
+    rng = R.rng
+    specs, lines = [], []
+    for _ in range(150 if R.quick else 3000):
+        bs = [rng.choice([2, 3, 3]) for _ in range(rng.randrange(1, 4))]
+        sd = rng.randrange(len(bs))
+        bs[sd] = max(bs[sd], 2)
+        sq = bs[sd]
+        B = [rng.choice([sq, sq, 2, 3]) for _ in range(rng.randrange(0, 3))] + bs      # rank equal to / above the stack's
+        i = rng.randrange(bs[sd])
+        Bm = list(B)
+        sdp = len(B) - len(bs) + sd
+        del Bm[sdp]
+        jb = [rng.randrange(d) for d in Bm]
+        specs.append((bs, B, sd, i, jb))
+        lines.append(sx([Sym("expandmember"), bs, B, sd, i, jb]))
+    for (bs, B, sd, i, jb), a in zip(specs, R.model(lines)):
+        n = 1
+        for d in bs:
+            n *= d
+        t = torch.arange(n).reshape(bs)
+        members = []
+        for m, sl in enumerate(t.unbind(sd)):
+            members.append(T["TensorDict"]({"a": sl, "own%d" % m: torch.zeros(sl.shape)}, list(sl.shape)))
+        lz = T["Lazy"].lazy_stack(members, sd)
+
+        def real():
+            e = lz.expand(B) if list(B) != bs else lz
+            if not isinstance(e, T["Lazy"]):
+                return "dense"
+            return [e.stack_dim, int(e.tensordicts[i].get("a")[tuple(jb)])]
+        impl = call(real)
+        io = impl[1] if impl[0] == "ok" else "raise"
+        mo = [a[0], int(t[tuple(a[1])])] if len(a[1]) == len(bs) else "bad-index"
+        R.case(("expandmember", tuple(bs), tuple(B), sd, i, tuple(jb)), nontrivial=len(B) > len(bs))
+        R.count("expandmember:" + ("above" if len(B) > len(bs) else "equal"))
+        R.traces += 1
+        if io != mo:
+            R.mismatch("lazy expand: stack dim / member element", {"batch": bs, "target": B, "stack_dim": sd, "member": i, "index": jb}, io, mo)
+        # oracle, independent of the model: torch's expand of the dense stack, read with i at the shifted dim
+        if isinstance(io, list):
+            full = jb[:io[0]] + [i] + jb[io[0]:]
+            want = int(t.expand(B)[tuple(full)])
+            if io[1] != want:
+                R.oracle_fail("lazy-expand-member", {"batch": bs, "target": B, "stack_dim": sd, "member": i, "index": jb},
+                              {"got": io[1], "want": want}, {"site": "LazyStackedTensorDict.expand", "pattern": "none"})
 
 
 def main(R):
@@ -2191,6 +2312,7 @@ def main(R):
         check_views(R)
         check_dispatch(R)
         check_lazy(R, cases, results)
+        check_expand(R)
     R.extra["cases_with_model_plan"] = sum(1 for ix in idx if ix is not None)
 
 
